@@ -116,7 +116,7 @@ class CapiCheck:
                     "path x every in-range index tuple (<= 40 per path) x every emitted accessor, C result vs Python accessor; "
                     "distinct by (class, accessor, indices); all non-trivial (a real compiled call)",
             "exhaustive": False,
-            "violations": viol[:5],
+            "violations": _by_key(viol),
             "samples": samples,
         }
 
@@ -158,3 +158,11 @@ def replay_script(c):
         "ev, d, viol, s = capi_native.run('thorough', 0, want_first=True)\n"
         "print(viol[0] if viol else 'no disagreement')\n"
     )
+
+
+def _by_key(violations, cap=12):
+    """one representative per case key (known findings must not crowd out new violations)"""
+    seen = {}
+    for v in violations:
+        seen.setdefault(v.get("case_key"), v)
+    return list(seen.values())[:cap]
